@@ -216,6 +216,17 @@ impl<'tcx> Cx<'tcx> {
                 return format!("[\"k\",{},{}]", js(&v), js(&tys));
             }
         }
+        // named `&str` constants: evaluate so that tables of URIs can be compared by value
+        if tys == "&str" || tys == "&'static str" {
+            if let Const::Unevaluated(..) = c {
+                if let Ok(v) = c.eval(self.tcx, tenv, rustc_span::DUMMY_SP) {
+                    let cv = Const::Val(v, t);
+                    let s = with_no_trimmed_paths!(format!("{}", cv));
+                    let path = with_no_trimmed_paths!(format!("{}", c));
+                    return format!("[\"k\",{},{},{}]", js(&norm_ws(&s, 200)), js(&tys), js(&norm_ws(&path, 160)));
+                }
+            }
+        }
         let s = with_no_trimmed_paths!(format!("{}", c));
         format!("[\"k\",{},{}]", js(&norm_ws(&s, 160)), js(&tys))
     }
